@@ -46,8 +46,8 @@ def run(chk):
     total_fail = 0
     for cap in caps:
         cfg = {"seed": chk.seed * 31 + (int(cap) if cap else 7), "kinds": ["eval", "hist"],
-               "fmt_cap": 3 if quick else 10, "n_inputs": 2 if quick else 4,
-               "max_problems": (len(GROWTH) + 40) if quick else 600, "per_shard": 8, "fuel": 400000,
+               "fmt_cap": 4 if quick else 10, "n_inputs": 2 if quick else 4,
+               "max_problems": (len(GROWTH) + 70) if quick else 600, "per_shard": 8, "fuel": 400000,
                "priority": GROWTH if cap else GROWTH[:6]}
         index, failing = run_mgen(chk, f"cap{cap or 'default'}", cfg, cap)
         if index is None:
